@@ -82,6 +82,35 @@ def view(obj):
                   for c in (getattr(obj, "children", None) or ())))
 
 
+class View(tuple):
+    """view() of a delivered object that also remembers which fields the object HAS (set or not): comparing it with the infoset of
+    the XML that was sent tolerates attributes the message class has no field for (the parser drops them by design)."""
+    names: tuple = ()
+    kid_names: tuple = ()
+
+
+def view_of(obj) -> "View":
+    v = View(view(obj))
+    v.names = tuple(vars(obj).keys())
+    v.kid_names = tuple(tuple(vars(c).keys()) for c in (getattr(obj, "children", None) or ()))
+    return v
+
+
+def same_content(v, x) -> bool:
+    """does the delivered object (View) have the content of the sent element (infoset)?"""
+    if not isinstance(v, View):
+        return v == x
+
+    def attrs_ok(fields, names, xattrs):
+        f, xa = dict(fields), dict(xattrs)
+        if any(k not in xa or xa[k] != val for k, val in f.items()):
+            return False
+        return all(k in f or k not in names for k in xa)        # an attribute without a field in the class was dropped by the parser
+    if v[0] != x[0] or v[2] != x[2] or len(v[3]) != len(x[3]) or not attrs_ok(v[1], v.names, x[1]):
+        return False
+    return all(kv[0] == kx[0] and kv[2] == kx[2] and attrs_ok(kv[1], kn, kx[1]) for kv, kx, kn in zip(v[3], x[3], v.kid_names))
+
+
 def spell(e: ET.Element, sp: int) -> str:
     """Independent XML writer: bit flags declaration, indentation, single quotes, reversed attribute order,
     explicit end tags for empty elements, character references for non-ASCII."""
@@ -263,7 +292,7 @@ def run_stream(pieces: List[Tuple[str, str]], cuts: Sequence[int], thr: int, min
             vw = None
             if isinstance(m, IndiMessage):
                 try:
-                    vw = view(m)
+                    vw = view_of(m)
                     ok = 1 if view(IndiMessage.from_string(m.to_string())) == vw else 0
                 except Exception:
                     ok = 0
@@ -277,11 +306,11 @@ def run_stream(pieces: List[Tuple[str, str]], cuts: Sequence[int], thr: int, min
         L = [[0] * (k + 1) for _ in range(n + 1)]
         for i in range(n - 1, -1, -1):
             for j in range(k - 1, -1, -1):
-                L[i][j] = L[i + 1][j + 1] + 1 if views[i] is not None and views[i] == expect[region[j]] else max(L[i + 1][j], L[i][j + 1])
+                L[i][j] = L[i + 1][j + 1] + 1 if views[i] is not None and same_content(views[i], expect[region[j]]) else max(L[i + 1][j], L[i][j + 1])
         ids = [0] * n
         i = j = 0
         while i < n and j < k:
-            if views[i] is not None and views[i] == expect[region[j]] and L[i][j] == L[i + 1][j + 1] + 1:
+            if views[i] is not None and same_content(views[i], expect[region[j]]) and L[i][j] == L[i + 1][j + 1] + 1:
                 ids[i] = region[j]
                 i += 1
                 j += 1
